@@ -1,6 +1,6 @@
 ------------------------------ MODULE GrowthGen ------------------------------
 (* G mode for the growth specification (Growth.tla). *)
-EXTENDS Growth, GenLib
+EXTENDS Growth, ChangelogHeader, GenLib
 
 \* 1. version accessors: structured versions
 Es == {<<48>>, <<49>>, <<49, 50>>}
@@ -47,5 +47,19 @@ LoadFileV == {[k |-> "loadfile", ops |-> o] : o \in LOps}
 \* 7. file variants
 FileV == {[k |-> "filevariants"]}
 
-ASSUME Emit(SetToSeq(VAcc \cup WildV \cup ByHashV \cup GetDscV \cup CompV \cup XzV \cup LoadFileV \cup FileV) \o SetToSeq(ArchsV))
+\* 8. changelog header lines (ChangelogHeader.tla): every string of <= 3 tokens and every single edit (token removed,
+\* replaced, inserted) of three complete headers; the harness wraps each in a one-entry changelog
+HToks == << <<97>>, <<98, HYPHEN, 49>>, <<49>>, <<49, HYPHEN, 50>>, <<SP>>, <<LPAREN>>, <<RPAREN>>, <<SEMI>>, <<COMMA>>, <<EQ>>, <<TAB>>,
+            <<49, COLON, 50, TILDE, 97>>, <<95, 120>>, <<SP, SP>>, <<85>> >>
+HLine(ts) == Concat([k \in 1..Len(ts) |-> HToks[ts[k]]])
+HBases == { <<1, 5, 6, 3, 7, 5, 1, 8, 5, 1, 10, 3>>,
+            <<2, 5, 6, 4, 7, 5, 1, 5, 2, 8, 5, 1, 10, 1, 9, 5, 2, 10, 3>>,
+            <<1, 5, 6, 3, 7, 5, 1, 8>>,
+            <<13, 5, 6, 12, 7, 14, 15, 8, 5, 15, 10, 5, 1, 5, 1, 9, 2, 10, 3, 5>> }
+HEdits(b) == {b} \cup {Upto(b, i - 1) \o From(b, i + 1) : i \in 1..Len(b)}
+             \cup {Upto(b, i - 1) \o <<t>> \o From(b, i + 1) : i \in 1..Len(b), t \in 1..Len(HToks)}
+             \cup {Upto(b, i) \o <<t>> \o From(b, i + 1) : i \in 0..Len(b), t \in 1..Len(HToks)}
+HdrV == {[k |-> "clheader", line |-> HLine(ts)] : ts \in UNION {[1..n -> 1..11] : n \in 0..3} \cup UNION {HEdits(b) : b \in HBases}}
+
+ASSUME Emit(SetToSeq(HdrV) \o SetToSeq(VAcc \cup WildV \cup ByHashV \cup GetDscV \cup CompV \cup XzV \cup LoadFileV \cup FileV) \o SetToSeq(ArchsV))
 =============================================================================
